@@ -34,6 +34,7 @@ Inductive val :=
 | VDict (d : list (Z * val)).
 
 Inductive binop := BAdd | BSub | BMul.
+Inductive kind := KList | KArray | KDict.
 Inductive cmpop := CLt | CLe | CGt | CGe | CEq | CNe.
 
 Inductive expr :=
@@ -63,7 +64,15 @@ Inductive expr :=
 | EOracle (name : string) (a : expr)     (* an external function whose ANSWER FOR THIS CALL is supplied in the environment under
                                             "oracle:" ++ name (np.argsort: any permutation that sorts); a is evaluated first *)
 | EZeros (n : expr)                      (* np.zeros(n, dtype=int) *)
-| EDictEnum (i x : string) (k v it : expr).      (* {k: v for i, x in enumerate(it)} *)
+| EDictEnum (i x : string) (k v it : expr)       (* {k: v for i, x in enumerate(it)} *)
+| EIsInst (k : kind) (a : expr)          (* isinstance(a, list | np.ndarray | dict): a Python list and a 1-D array are the SAME value here,
+                                            so both tests hold of it *)
+| EDictKeys (a : expr)                   (* list(a.keys()) *)
+| EMin (a : expr)                        (* np.min(a): ValueError on an empty array *)
+| EOnes (n : expr)                       (* np.ones(n) *)
+| EAsFloat (a : expr)                    (* a.astype(float) *)
+| EHstack (a b : expr)                   (* np.hstack((a, b)) *)
+| EFull (n x : expr).                    (* x * np.ones(n): the array of n copies of the number x (x * 1.0 = x exactly) *)
 
 Inductive stmt :=
 | SSkip
@@ -76,6 +85,7 @@ Inductive stmt :=
 | SForRange (x : string) (n : expr) (body : stmt)
 | SForRows (xs : list string) (a : expr) (body : stmt)   (* for x1, ..., xk in a *)
 | SForEnum (i x : string) (a : expr) (body : stmt)       (* for i, x in enumerate(a) *)
+| SUnpack (xs : list string) (e : expr)                  (* x1, ..., xk = e   (e a tuple / list of k values) *)
 | SRaise (e : perr).
 
 Definition env := string -> option val.
@@ -125,6 +135,13 @@ Definition bin_vals (o : binop) (a b : val) : pres val :=
   | BSub, VNum x, VNum y => POk (VNum (x - y))
   | BMul, VNum x, VNum y => POk (VNum (x * y))
   | BAdd, VList x, VList y => POk (VList (x ++ y))
+  | BMul, VNum x, VList y =>                       (* scalar * array of numbers *)
+      (fix go (l : list val) : pres val :=
+         match l with
+         | [] => POk (VList [])
+         | VNum q :: t => match go t with POk (VList r) => POk (VList (VNum (x * q) :: r)) | POk _ => PErr PTypeError | PErr e => PErr e end
+         | _ :: _ => PErr PTypeError
+         end) y
   | _, _, _ => PErr PTypeError
   end.
 
@@ -244,6 +261,31 @@ Fixpoint dict_enum (f : nat -> val -> pres (Z * val)) (items : list val) (pos : 
       | PErr err => PErr err
       | POk (kz, vv) => dict_enum f rest (S pos) (dset kz vv acc)
       end
+  end.
+
+(** a[idx] = vals with idx an integer array and vals an array of the same length: pairwise, in order (a later duplicate wins) *)
+Fixpoint fancy_set_vec (l : list val) (idx vals : list val) : pres (list val) :=
+  match idx, vals with
+  | [], [] => POk l
+  | VInt z :: t, v :: vt => match list_set l z v with POk l' => fancy_set_vec l' t vt | PErr e => PErr e end
+  | VInt _ :: _, [] | [], _ :: _ => PErr PValueError
+  | _ :: _, _ => PErr PTypeError
+  end.
+
+Fixpoint min_q (x : Q) (l : list val) : pres Q :=
+  match l with
+  | [] => POk x
+  | VNum y :: t => min_q (if Qle_bool x y then x else y) t
+  | VInt z :: t => min_q (if Qle_bool x (inject_Z z) then x else inject_Z z) t
+  | _ :: _ => PErr PTypeError
+  end.
+
+Fixpoint as_float (l : list val) : pres (list val) :=
+  match l with
+  | [] => POk []
+  | VNum q :: t => match as_float t with POk r => POk (VNum q :: r) | PErr e => PErr e end
+  | VInt z :: t => match as_float t with POk r => POk (VNum (inject_Z z) :: r) | PErr e => PErr e end
+  | _ :: _ => PErr PTypeError
   end.
 
 (** * Expressions (with the side effect of [pop]) *)
@@ -488,6 +530,66 @@ Fixpoint eval (ex : expr) (e : env) {struct ex} : pres (env * val) :=
           end
       | POk _ => PErr PTypeError
       end
+  | EIsInst k a =>
+      match eval a e with
+      | PErr x => PErr x
+      | POk (e1, v) =>
+          POk (e1, VBool (match k, v with
+                          | KList, VList _ | KArray, VList _ | KDict, VDict _ => true
+                          | _, _ => false
+                          end))
+      end
+  | EDictKeys a =>
+      match eval a e with
+      | PErr x => PErr x
+      | POk (e1, VDict d) => POk (e1, VList (map (fun kv => VInt (fst kv)) d))
+      | POk _ => PErr PTypeError
+      end
+  | EMin a =>
+      match eval a e with
+      | PErr x => PErr x
+      | POk (e1, VList []) => PErr PValueError
+      | POk (e1, VList (VNum q :: t)) => match min_q q t with POk m => POk (e1, VNum m) | PErr x => PErr x end
+      | POk (e1, VList (VInt z :: t)) => match min_q (inject_Z z) t with POk m => POk (e1, VNum m) | PErr x => PErr x end
+      | POk _ => PErr PTypeError
+      end
+  | EOnes n =>
+      match eval n e with
+      | PErr x => PErr x
+      | POk (e1, VInt z) => POk (e1, VList (repeat (VNum 1) (Z.to_nat z)))
+      | POk _ => PErr PTypeError
+      end
+  | EAsFloat a =>
+      match eval a e with
+      | PErr x => PErr x
+      | POk (e1, VList l) => match as_float l with POk r => POk (e1, VList r) | PErr x => PErr x end
+      | POk _ => PErr PTypeError
+      end
+  | EFull n x =>
+      match eval n e with
+      | PErr err => PErr err
+      | POk (e1, VInt z) =>
+          match eval x e1 with
+          | PErr err => PErr err
+          | POk (e2, VNum q) => POk (e2, VList (repeat (VNum q) (Z.to_nat z)))
+          | POk (e2, VInt k) => POk (e2, VList (repeat (VNum (inject_Z k)) (Z.to_nat z)))
+          | POk _ => PErr PTypeError
+          end
+      | POk _ => PErr PTypeError
+      end
+  | EHstack a b =>
+      match eval a e with
+      | PErr x => PErr x
+      | POk (e1, va) =>
+          match eval b e1 with
+          | PErr x => PErr x
+          | POk (e2, vb) =>
+              match va, vb with
+              | VList x, VList y => POk (e2, VList (x ++ y))
+              | _, _ => PErr PTypeError
+              end
+          end
+      end
   end.
 
 (** * Statements *)
@@ -539,7 +641,11 @@ Fixpoint exec (s : stmt) (e : env) {struct s} : pres env :=
               end
           | POk (e2, VList idx) =>                (* x[idx] = v with an integer array idx (NumPy) *)
               match e2 x with
-              | Some (VList l) => match fancy_set l idx vv with POk l' => POk (upd x (VList l') e2) | PErr err => PErr err end
+              | Some (VList l) =>
+                  match (match vv with VList vs => fancy_set_vec l idx vs | _ => fancy_set l idx vv end) with
+                  | POk l' => POk (upd x (VList l') e2)
+                  | PErr err => PErr err
+                  end
               | Some _ => PErr PTypeError
               | None => PErr PUnbound
               end
@@ -587,6 +693,12 @@ Fixpoint exec (s : stmt) (e : env) {struct s} : pres env :=
       | PErr err => PErr err
       | POk (e1, VList items) =>
           for_enum (fun pos item e' => exec body (upd x item (upd i (VInt pos) e'))) items 0%Z e1
+      | POk _ => PErr PTypeError
+      end
+  | SUnpack xs ex =>
+      match eval ex e with
+      | PErr err => PErr err
+      | POk (e1, VList vs) => match bind_all xs vs e1 with Some e2 => POk e2 | None => PErr PValueError end
       | POk _ => PErr PTypeError
       end
   | SRaise err => PErr err
